@@ -1658,6 +1658,63 @@ example : FirstBefore { owner := "root", name := "x", kind := .explicit } { owne
     (by decide) (by decide) (by decide) (by decide) (by decide) (by decide)
 
 
+/-! ## the order among the listed supertypes -/
+
+/-- the attributes a supertype `p` contributes: its own and those of its direct and indirect supertypes -/
+def ContributedBy (es : List Entity) (p : String) (x : Attr) : Prop :=
+  ∃ anc ae, (anc = p ∨ Anc es anc p) ∧ find es anc = some ae ∧ x ∈ ae.attrs
+
+theorem block_sound (es : List Entity) (x : Attr) (p : String)
+    (h : x ∈ (match find es p with | some pe => allAttrs es es.length pe | none => [])) : ContributedBy es p x := by
+  cases hfp : find es p with
+  | none => simp [hfp] at h
+  | some pe =>
+    simp only [hfp] at h
+    rcases allAttrs_sound es x es.length p pe hfp h with h1 | ⟨anc, ae, hanc, hfa, ha⟩
+    · exact ⟨p, pe, Or.inl rfl, hfp, h1⟩
+    · exact ⟨anc, ae, Or.inr hanc, hfa, ha⟩
+
+theorem block_complete (es : List Entity) (hac : EntityOrder.Acyclic es) (x : Attr) (p : String) (h : ContributedBy es p x) :
+    x ∈ (match find es p with | some pe => allAttrs es es.length pe | none => []) := by
+  obtain ⟨anc, ae, hrel, hfa, ha⟩ := h
+  rcases hrel with rfl | hanc
+  · simp only [hfa]; exact own_mem_allAttrs es x _ ae ha
+  · obtain ⟨l, hl⟩ := EntityOrder.path_of_anc hanc
+    have hlen : l.length ≤ es.length := by
+      have := EntityOrder.nodup_subset_length_le l (es.map (·.name)) (EntityOrder.path_nodup hac hl) (EntityOrder.path_nodes hl).2
+      simpa using this
+    obtain ⟨pe, hfp⟩ := path_head_find hl
+    simp only [hfp]
+    exact allAttrs_complete es x hl es.length pe ae hlen hfp hfa ha
+
+/-- **Among unrelated supertypes the constructor follows the declaration order**: if `p` is listed in `SUBTYPE OF (…)` and
+`a` is an explicit attribute that `p` contributes (its own or an ancestor's), then `a` stands in the inherited parameter list
+before every attribute `b` that neither `p` nor any supertype listed before `p` contributes — i.e. everything that first
+arrives through a later supertype.  Stated with the supertype relation and positions; together with
+`C18_ctor_supertype_attributes_first` (ancestors before descendants), `C18_ctor_inherits_exactly_…` (membership, once each)
+and `C18_ctor_inherited_then_own` this determines the Part 21 order of the constructor without reference to the fold. -/
+theorem C18_ctor_supertypes_in_declaration_order (es : List Entity) (hac : EntityOrder.Acyclic es) (e : Entity)
+    (l1 l2 : List String) (p : String) (hsup : e.supers = l1 ++ p :: l2) {a b : Attr}
+    (ha : ContributedBy es p a) (hpa : isParam a = true)
+    (hb : ∀ q ∈ l1 ++ [p], ¬ ContributedBy es q b) :
+    FirstBefore a b (inheritedAttrs es e) := by
+  have hio : inheritedOnce = true := rfl
+  have hab : a ≠ b := by
+    intro h; subst h
+    exact hb p (by simp) ha
+  simp only [inheritedAttrs, hio, if_true]
+  refine (FirstBefore.dedup hab _ ?_).filter _ hpa
+  simp only [inheritedAll, superOrder_eq, hsup]
+  have hsplit : l1 ++ p :: l2 = (l1 ++ [p]) ++ l2 := by simp
+  rw [hsplit, List.flatMap_append]
+  apply FirstBefore.of_mem
+  · simp only [List.mem_flatMap]
+    exact ⟨p, by simp, block_complete es hac a p ha⟩
+  · simp only [List.mem_flatMap]
+    rintro ⟨q, hq, hbq⟩
+    exact hb q hq (block_sound es b q hbq)
+
+
 /-! ## FUNCTION bodies: translation correctness of the statement fragment -/
 
 namespace Stmt
